@@ -136,6 +136,7 @@ class Fn:
         self.name, self.decl, self.reg, self.self_class = name, decl, reg, self_class
         self.defs, self.ub, self.env, self.counter, self.order = [], [], {}, {}, []
         self.tables = {}
+        self.vtypes = {}      # Lean type of a tuple-valued local (everything else is passed as Int)
         self.fields = {}      # Functor jobs: field name -> True once bound (MemberExpr on `this` = the binding)
 
     def guarded(self, cond, fcond, thunk, negate=False):
@@ -443,6 +444,8 @@ class Fn:
         ps = sorted(fv)
         self.defs.append((ln, ps, e, isb))
         self.env[v] = (lv, {lv}, False if isinstance(isb, tuple) else isb)
+        if isinstance(isb, tuple):      # a tuple-valued local: later per-local definitions take it as a tuple parameter
+            self.vtypes[lv] = " × ".join(["Int"] * isb[1])
         self.order.append((lv, ln, ps))
 
     def body(self, stmts):
@@ -628,7 +631,7 @@ class Fn:
         out = []
         for ln, ps, e, isb in self.defs:
             ty = " × ".join(["Int"] * isb[1]) if isinstance(isb, tuple) else ("Bool" if isb else "Int")
-            out.append("def %s %s : %s :=\n  %s" % (ln, " ".join("(%s : Int)" % p for p in ps), ty, e))
+            out.append("def %s %s : %s :=\n  %s" % (ln, " ".join("(%s : %s)" % (p, self.vtypes.get(p, "Int")) for p in ps), ty, e))
         lets = "".join("  let %s := %s %s\n" % (v, ln, " ".join(ps)) for v, ln, ps in self.order)
         pl = " ".join("(%s : Int)" % p for p in params)
         out.append("def %s %s :=\n%s  %s" % (self.name, pl, lets, res[0]))
